@@ -198,3 +198,21 @@ Proof.
   - destruct (B F) as [H|H]; [exact H|vm_compute in H; discriminate].
   - apply (C13_survives nvW 8 1024000 nv_ds [(1024800, ASetInt 0 300)]). simpl. intros [H|[]]; discriminate.
 Qed.
+
+(* C13_nopoll_module_never_polled: the premise is satisfiable (a doPoll of module 1 and a read inside doPoll of module 0
+   are in the log of the run with requests), and in a run where a module with enablePoll = false and a configured
+   write shares the thread with a polled one (demo5, with a trigger and setFastPoll addressed to the module that is
+   not polled) the conclusion excludes every doPoll of that module *)
+Example C13_nopoll_module_never_polled_applies :
+  (exists d, nth_error (map fst nv_ds) 1 = Some d /\ enable d = true) /\
+  (exists d, nth_error (map fst nv_ds) 0 = Some d /\ enable d = true) /\
+  (forall n a t, ~ In (LMain t 0%nat) (log (run demo5_W n (init_state 1024000 demo5_ds a)))).
+Proof.
+  split; [|split].
+  - apply (C13_nopoll_module_never_polled nvW 2 1024000 nv_ds nv_acts 1024749 1%nat). left. vm_compute. tauto.
+  - apply (C13_nopoll_module_never_polled nvW 2 1024000 nv_ds nv_acts 1024741 0%nat). right. left. exists 0%nat.
+    vm_compute. tauto.
+  - intros n a t H.
+    destruct (C13_nopoll_module_never_polled demo5_W n 1024000 demo5_ds a t 0%nat (or_introl H)) as (d & Hd & He).
+    simpl in Hd. inversion Hd; subst d. discriminate He.
+Qed.
